@@ -89,6 +89,11 @@ def seq_cmp_exec(rng):
         ks = rng.sample(it, n)
         L.append("V %d R %d%s" % (t, n, "".join(" %d %d" % (k, rng.choice(it)) for k in ks)))
         trees.append(t); t += 1
+    # ordered maps with the SAME keys and different values (values decide), and with one differing key further on
+    ks = sorted(rng.sample(it, 3))
+    for _ in range(5):
+        L.append("V %d R 3%s" % (t, "".join(" %d %d" % (k, rng.choice(it[:3])) for k in ks)))
+        trees.append(t); t += 1
     sv = strings(rng, 6)
     sl, st = define("S", sv, t); L += sl; t += len(st)
     sseqs = []
